@@ -21,6 +21,13 @@ def cases_for(tier, rng):
                 continue
             n += 1
             cases.append(("k%d" % n, "(case k%d %s (labels %s))" % (n, kind, " ".join(h)), {"kind": kind, "len": len(h)}))
+    # long sources: an outcome computed from a wrapping count of notifications changes at 2^8 / 2^16 (seeded C14-14)
+    for kind in ("tofuture", "tostream"):
+        for length in (255, 256, 257, 258, 511, 512, 513) + ((65535, 65536, 65537) if kind == "tofuture" else ()):
+            for term in ("c", "(e 7)"):
+                n += 1
+                h = ["(n %d)" % (1 + i % 2) for i in range(length)] + [term, "poll", "poll"]
+                cases.append(("k%d" % n, "(case k%d %s (labels %s))" % (n, kind, " ".join(h)), {"kind": kind + "-long", "len": len(h)}))
     # complete_status: flags after every label; one waiter per case, in each of the three windows
     for pre in label_seqs(2, ["(n 1)", "c", "(e 7)"]):
         for when in ("before", "at_yield", "after"):
